@@ -368,7 +368,7 @@ func (e c18Expr) coq() string {
 			}
 			return "YLit (LFloat " + c18Z(r.Num()) + " " + c18Z(r.Denom()) + ")"
 		case e.Tok == "STRING" && v.Kind() == constant.String:
-			return "YLit (LString " + coqStr(strconv.QuoteToASCII(constant.StringVal(v))) + ")"
+			return "YLit (LString " + coqStr(c18StrRepr(constant.StringVal(v))) + ")"
 		}
 	}
 	return "YLit LFail"
